@@ -483,6 +483,43 @@ func (c *Ctx) codEnc(which map[string]bool) {
 					}
 				}
 			}
+			if !okG {
+				// the same fact in another spelling (size <= packetMax kept, a
+				// negated conjunction, …): established on every path to the encoder
+				at := phi.Block()
+				if at.Parent() != e.fn {
+					for _, cb := range e.fn.Blocks {
+						for _, ci := range cb.Instrs {
+							if call, ok := ci.(*ssa.Call); ok && call.Call.StaticCallee() == at.Parent() {
+								at = cb
+							}
+						}
+					}
+				}
+				reached, all := 0, true
+				for _, p := range c.Paths("COD-5", e.fn) {
+					if p.Start != e.fn.Blocks[0] {
+						continue
+					}
+					for j, b := range p.Blocks {
+						if b != at {
+							continue
+						}
+						reached++
+						if !hasCmp(assumed(p, 0, p.BlockEv[j]), func(k cmp) bool {
+							if stripConv(k.X) != size {
+								return false
+							}
+							n, ok := intConst(k.Y)
+							return ok && (k.Op == token.LEQ && n <= pm || k.Op == token.LSS && n <= pm+1)
+						}) {
+							all = false
+						}
+						break
+					}
+				}
+				okG = reached > 0 && all
+			}
 			if okG {
 				a.pass()
 			} else {
@@ -732,6 +769,8 @@ func (c *Ctx) cod7(encs []*encoder) {
 	// the condition that enables the Will in the encoder is the condition
 	// under which valid() demands a non-empty, well-formed will topic
 	if enc := c.Fn("COD-7", "(*Config).newCONNREQ"); enc != nil && valid != nil {
+		// the condition, normalised, under which a block with the picked
+		// content is entered: on the true or on the false edge of its test
 		condOf := func(fn *ssa.Function, pick func(tb *ssa.BasicBlock) bool) []string {
 			var out []string
 			for _, b := range c.regionBlocks(fn) {
@@ -739,8 +778,22 @@ func (c *Ctx) cod7(encs []*encoder) {
 				if !ok {
 					continue
 				}
-				if pick(b.Succs[0]) {
-					out = append(out, Expr(iff.Cond))
+				for side := 0; side < 2; side++ {
+					if !pick(b.Succs[side]) || pick(b.Succs[1-side]) {
+						continue
+					}
+					truth := side == 0
+					if cm, ok := cmpOf(iff.Cond, truth); ok {
+						x := roleKey(cm.X)
+						if x == "" {
+							x = Expr(cm.X)
+						}
+						out = append(out, x+" "+cm.Op.String()+" "+Expr(cm.Y))
+					} else if truth {
+						out = append(out, Expr(iff.Cond))
+					} else {
+						out = append(out, "!("+Expr(iff.Cond)+")")
+					}
 				}
 			}
 			return out
@@ -759,6 +812,10 @@ func (c *Ctx) cod7(encs []*encoder) {
 			for _, ins := range tb.Instrs {
 				if call, ok := ins.(*ssa.Call); ok {
 					if arg, isLen := builtinCall(call, "len"); isLen && strings.HasSuffix(canon(arg), "Will.Topic") {
+						return true
+					}
+					// … or appends the topic itself (the lengths may be taken ahead of the test)
+					if bl, isB := call.Call.Value.(*ssa.Builtin); isB && bl.Name() == "append" && len(call.Call.Args) == 2 && strings.HasSuffix(canon(call.Call.Args[1]), "Will.Topic") {
 						return true
 					}
 				}
